@@ -41,6 +41,23 @@ func (l *filterRuleList) matches(name string, isDir bool) bool {
 	return false
 }
 
+// NewFilterRuleList builds a rule list from filter rules in the syntax that
+// RecvFilterList reads from the wire ("- name", "+ name"), e.g. the rules the
+// option parser collected from --exclude/--include/--filter.
+func NewFilterRuleList(rules []string) (*filterRuleList, error) {
+	var l filterRuleList
+	for _, line := range rules {
+		fr, err := parseFilter(line)
+		if err != nil {
+			return nil, err
+		}
+		if err := l.addRule(fr); err != nil {
+			return nil, err
+		}
+	}
+	return &l, nil
+}
+
 // exclude.c:recv_filter_list
 func RecvFilterList(c *rsyncwire.Conn) (*filterRuleList, error) {
 	var l filterRuleList
